@@ -155,6 +155,8 @@ type World struct {
 	ControlConns          []*BackendConn
 	Services              map[string]func(*simnet.PeerEnd) // address -> service run as a sim task per connection
 	DialAttempts          map[string][]time.Duration       // every SUT dial (accepted or not), by address
+	Truncated             bool                             // the run used up its step budget (no verdict on what had not happened yet)
+	ExoticBodies          map[string]string                // bodies of ERROR responses sent on purpose that the reference codec cannot decode -> outcome name
 	HostileUnpreparedID   []byte                           // id of a statement in the proxy's prepared cache (hostile UNPREPARED replies)
 	ClockOn               bool                             // early clock advances allowed (off during boot and drain)
 	ScriptBeatsUnprepared bool                             // a scripted outcome is applied even to EXECUTE/BATCH of ids the node does not know (hostile backends, C17)
@@ -219,6 +221,18 @@ func (w *World) Violate(oracle, sig, detail string) {
 
 func (w *World) Stopped() bool { return w.stop }
 
+// truncate ends a run that used up its step budget: what has not happened by then (a reply, a
+// reconnect) says nothing about the property, so the scenario gives no verdict on it (a task that
+// spins without progress is the livelock detector's business and is reported before this point).
+func (w *World) truncate() {
+	if !w.stop {
+		w.Truncated = true
+		w.Stat("run.truncated_by_step_budget")
+		w.Logf("run truncated: step budget of %d used up", w.Cfg.MaxSteps)
+		w.stop = true
+	}
+}
+
 // ---------------------------------------------------------------- cluster
 
 func (w *World) AddNode(inCluster bool) *Node {
@@ -270,7 +284,7 @@ func (w *World) resolveDial(d *simnet.PendingDial) {
 		return
 	}
 	kind := simnet.DialAccept
-	if !n.Up {
+	if !n.Up || n.RefuseNew {
 		kind = simnet.DialRefuse
 	} else if n.Blackhole {
 		kind = simnet.DialBlackhole
@@ -846,6 +860,7 @@ func (w *World) RunUntil(cond func() bool, maxSim time.Duration) bool {
 			return true
 		}
 		if w.S.Steps >= w.Cfg.MaxSteps {
+			w.truncate()
 			return false
 		}
 		now := w.Now()
@@ -859,7 +874,11 @@ func (w *World) RunUntil(cond func() bool, maxSim time.Duration) bool {
 
 // Quiesce runs until no task is runnable and nothing is deliverable (timers are not waited for).
 func (w *World) Quiesce() {
-	for !w.stop && w.S.Steps < w.Cfg.MaxSteps {
+	for !w.stop {
+		if w.S.Steps >= w.Cfg.MaxSteps {
+			w.truncate()
+			return
+		}
 		w.S.Settle()
 		if len(w.S.RunnableTasks()) == 0 && len(w.netActs()) == 0 && (len(w.held) == 0 || w.Cfg.WPeer == 0) {
 			return
